@@ -160,9 +160,48 @@ class Sequence:
         return [] if est else ["after the connection history the last, well-behaved session did not establish"]
 
 
+class HoldSequence(Sequence):
+    """consecutive sessions on one peer (outbound: the FSM object is reused) whose OPENs propose different hold times, zero
+    after non-zero and back, each with KEEPALIVE and UPDATE traffic and ended by the remote closing: every session must
+    establish (a wedged FSM shows as a session that never comes up, or as Close not returning)"""
+
+    def __init__(self, sid, local, holds, direction="out"):
+        self.sid, self.local, self.holds, self.direction = sid, local, holds, direction
+        self.tag = "hold-time-sequence.%s.local%d.%s" % (direction, local, "-".join(map(str, holds)))
+        self.lid, self.remote_id = 0x0A000001, 0x0A000002
+
+    def scenario(self):
+        ka, upd = S.frame(S.KEEPALIVE).hex(), S.frame(S.UPDATE, bytes(4)).hex()
+        st = []
+        for k, rh in enumerate(self.holds):
+            c = "c%d" % (k + 1)
+            st += [["dial", c]] if self.direction == "in" else [["accept", c, 2500]]
+            st += [["recv", c, 1, 1500], ["send", c, S.frame(S.OPEN, S.open_body(hold=rh)).hex(), 0], ["send", c, ka, 0],
+                   ["recv", c, 2, 1500], ["sleep", 20], ["send", c, ka, 0], ["send", c, upd, 0], ["send", c, ka, 0], ["sleep", 30]]
+            if k + 1 < len(self.holds):
+                st += [["close", c], ["recv_eof", c, 800], ["fullclose", c], ["sleep", 30]]
+        return {"id": self.sid, "local_as": 65001, "remote_as": 65000, "local_id": self.lid, "hold": self.local,
+                "passive": self.direction == "in", "idle_hold_ms": 60, "connect_retry_ms": 300, "caps": [], "on_open": None,
+                "handler": [], "est_writes": [], "steps": st}
+
+    def check(self, r):
+        est = sum(1 for cb in r["cbs"] if cb["name"] == "OnEstablished" and cb["ph"] == "enter")
+        hs = sum(1 for cb in r["cbs"] if cb["name"] == "Handler" and cb["ph"] == "enter")
+        bad = []
+        if est < len(self.holds):
+            bad.append("only %d of %d consecutive sessions (remote hold times %s) established: the peer is wedged after the connection history"
+                       % (est, len(self.holds), list(self.holds)))
+        elif hs < len(self.holds):
+            bad.append("only %d of %d UPDATEs (one per session) reached the handler" % (hs, len(self.holds)))
+        return bad
+
+
 def sequence_items(rng, tier):
     out = []
     sid = 600
+    for k, (local, holds, d) in enumerate(((90, (30, 0, 90), "out"), (90, (3, 0, 0, 30), "out"), (0, (90, 0, 30), "out"),
+                                           (9, (0, 30, 0), "out"), (90, (30, 0, 90), "in"))):
+        out.append(HoldSequence(650 + k, local, holds, d))
     ka = S.frame(S.KEEPALIVE).hex()
     for lid, rid in ((0x0A000003, 0x0A000002), (0x0A000001, 0x0A000002)):       # local dominant / remote dominant
         op = S.frame(S.OPEN, S.open_body(bid=rid)).hex()
